@@ -9,18 +9,18 @@ V = os.path.dirname(os.path.dirname(os.path.abspath(__file__)))
 AB = {
 "C03": ("RelayPayment reaches AddEpochPayment (the point where a relay is accepted) only when IsUniqueEpochSessionExists was just false for exactly (epochStart, relay.Provider, project.Index, relay.SpecId, relay.SessionId) and epochStart is not before the earliest epoch in memory; AddEpochPayment marks exactly that key as paid; both key helpers build the key from exactly the five components; cleaning up a dropped epoch deletes only records reached through an iterator over exactly that epoch's key prefix. CuSum is not part of the key.",
         "Modular over the KV store: the unique-session store is a ghost function of the key (IsUniqueEpochSessionExists is a 'function' of its arguments and the store version). Injectivity of UniqueEpochSessionKey's string encoding and RemoveOldEpochPayments are not under contract; transaction atomicity (a failed tx reverts the marker) is cosmos-sdk behaviour."),
-"C04": ("EnforceClientCUsUsageInEpoch returns at most the signed relay CU and keeps the epoch total within the allowance (both limit branches, uint64 wrap modelled); AddEpochPayment's running total includes this relay (no wrap: saturating add, fixed); lavaslices.Min returns a minimum; RelayPayment credits at most rewardedCU after QoS and rewardedCU <= relay.CuSum.",
-        "The allowance (policy, downtime factor) comes from keeper calls with trusted frames; QoS weight is trusted to lie in [0,1]."),
+"C04": ("EnforceClientCUsUsageInEpoch returns at most the signed relay CU and keeps the epoch total within the allowance (both limit branches, uint64 wrap modelled); AddEpochPayment's running total includes this relay (no wrap: saturating add, fixed); lavaslices.Min returns a minimum; RelayPayment credits at most rewardedCU after QoS and rewardedCU <= relay.CuSum; ComputeQoS accepts only three scores in [0,1] and returns a score in [0,1].",
+        "The allowance (policy, downtime factor) comes from keeper calls with trusted frames; The cube root inside ComputeQoS is a trusted range specification (the root of a value in [0,1] lies in [0,1])."),
 "C05": ("At the point of no return (AddEpochPayment) every relay in RelayPayment satisfies: provider address equals the sender, relay.LavaChainId equals the chain id, 0 <= epoch <= height, the client is the recovered signer or - after a passed checkBadge - the badge signer, the badge is for this chain/epoch/user, the project found for that client at that epoch is enabled, the epoch start is still in memory; CU is charged only with spec found and enabled and pairing valid; ValidatePairingForClient reads, computes and caches the pairing list for the relay's own project index, chain and epoch (an epoch start).",
-        "Signature recovery, GetProjectData and ValidatePairingForClient are trusted callee contracts (the pairing computation itself is C02, not claimed). 'Rejected without changing anything' is not proved as a frame: RelayPayment writes the store only through the calls listed, but continue-paths after AddEpochPayment rely on tx revert."),
-"C08": ("CalcRewards splits a reward into provider and delegators parts that add up exactly, are non-negative, give the provider its own stake share plus commission on the rest (whole reward at 100% commission); CalcDelegatorReward is the credit share rounded down and never exceeds the pool; updateDelegatorsReward's leftover is the pool minus all shares, within [0, pool]. Division by zero and negative Coins.Sub are excluded (safety obligations).",
+        "Signature recovery and GetProjectData are trusted callee contracts; ValidatePairingForClient is verified only as far as 'the list is read, computed and cached for this project, chain and epoch' (the pairing computation itself is C02, not claimed). 'Rejected without changing anything' is not proved as a frame: RelayPayment writes the store only through the calls listed, but continue-paths after AddEpochPayment rely on tx revert."),
+"C08": ("CalcRewards splits a reward into provider and delegators parts that add up exactly, are non-negative, give the provider its own stake share plus commission on the rest (whole reward at 100% commission); CalcDelegatorReward is the credit share rounded down and never exceeds the pool; updateDelegatorsReward's leftover is the pool minus all shares, within [0, pool]; RewardProvidersAndDelegators splits exactly the reward minus the contributors' cut, hands the delegators' part to updateDelegatorsReward, and pays the provider its part plus the leftover, the three parts adding up to the reward. Division by zero and negative Coins.Sub are excluded (safety obligations).",
         "Coins/Int arithmetic uses the library model of cosmossdk.io/math (mathematical integers, truncated division); delegation credits come from C23."),
 "C11": ("RewardAndResetCuTracker pays each provider credit(capped at LIMIT_TOKEN_PER_CU per CU) * trackedCU / totalCU rounded down, resets the tracked CU before paying, pays in total at most the capped credit, and returns the whole credit when nothing was tracked; CalcTotalMonthlyReward is the proportional share rounded down.",
         "GetSubTrackedCuInfo's totals are a ghost prefix sum assumed consistent with the per-provider entries (site assumption); validators/community participation inside RewardProvidersAndDelegators is C08/C21."),
-"C12": ("One monthly expiry lowers the remaining months by exactly one, resets the monthly CU to the plan total, removes the subscription only at zero with neither advance purchase nor auto-renewal, activates an advance purchase or renews only at zero; ChargeComputeUnitsToSubscription saturates at zero and never exceeds the total; a purchase adds the months bought to the months left (zero for a new subscription and after an upgrade), stores the months bought, and charges price * months with the annual discount judged on the months bought (>= 12) and rounded down.",
-        "The fixation store and timer store are trusted frames ('only the entry handed in is written'); values found in the store are linked by ghost functions (site assumptions); CreateFutureSubscription (advance purchase pricing) and the timer that triggers advanceMonth (C15) are not under contract."),
-"C13": ("Over a ghost reference count per plan version: advanceMonth only ever lowers the count of the version the subscription held at entry, and by at most one; RemoveExpiredSubscription releases at most the named version once; a successful renewal moves the one reference from the old to the new version and a failed one moves none.",
-        "PlansKeeper.GetPlan/PutPlan are trusted ghost specifications of the reference counter; the fixation store's own deletion rule (C14) and CreateFutureSubscription are not under contract. Advance-purchase activation leaks the old version's reference (never released) - a leak, not an availability violation, noted."),
+"C12": ("One monthly expiry lowers the remaining months by exactly one, resets the monthly CU to the plan total, removes the subscription only at zero with neither advance purchase nor auto-renewal, activates an advance purchase or renews only at zero; ChargeComputeUnitsToSubscription saturates at zero and never exceeds the total; a purchase adds the months bought to the months left (zero for a new subscription and after an upgrade), stores the months bought, and charges price * months with the annual discount judged on the months bought (>= 12) and rounded down; an advance purchase is priced on the plan version in force at the next epoch, charges the price or the difference to the purchase it replaces, and records the months bought on the latest version.",
+        "The fixation store and timer store are trusted frames ('only the entry handed in is written'); values found in the store are linked by ghost functions (site assumptions); the timer that triggers advanceMonth (C15) is not under contract."),
+"C13": ("Over a ghost reference count per plan version: advanceMonth only ever lowers the count of the version the subscription held at entry, and by at most one; RemoveExpiredSubscription releases at most the named version once; a successful renewal moves the one reference from the old to the new version and a failed one releases the held version (fixed); a purchase (CreateSubscription) never releases a reference.",
+        "PlansKeeper.GetPlan/PutPlan are trusted ghost specifications of the reference counter; the fixation store's own deletion rule (C14) is not under contract. Advance-purchase activation leaks the old version's reference (never released) - a leak, not an availability violation, noted."),
 "C16": ("GetEpochStartForBlock returns a start on the fixation grid, not after the block, with the block inside that epoch; IsEpochStart iff offset zero; GetNextEpoch is strictly later; GetPreviousEpochStartForBlock returns what the grid gives for the block before the target epoch start (strictly earlier than the block); UpdateEarliestEpochstart only moves the earliest epoch forward and drops an epoch only when it is older than the blocks-to-save window in force at that epoch (loop invariant).",
         "Fixated parameters come from the fixation store through a trusted lookup contract (fixation block <= block); 'epoch starts are exactly where epoch-start processing ran' is not under contract."),
 "C18": ("checkBadge accepts only if relay CU plus the used CU found fits the allocation (no uint64 wrap), only for the badge's own user, epoch and chain, and a new usage record gets an expiry in the future, computed from the blocks-to-save window in force at the badge's own epoch; handleBadgeCu stores exactly found + relay CU, within the allocation; RelayPayment calls them with the preconditions they need.",
@@ -29,33 +29,33 @@ AB = {
         "Stake-history length (minHistoryBlock) and GetAllProviderEpochComplainerCuStore are trusted/pure; time model over mathematical seconds within a stated range."),
 "C20": ("Commit only in the commit phase by a listed voter once, recording the commitment; reveal only in the reveal phase after the voter's own commit, with a hash matching the commitment and a valid choice; other votes untouched; phase transitions only at an epoch start after the deadline; the winner holds more than half of the counted stake and is the largest option; each option counts only its own votes, and exactly the staked voters without one of the three choices (no vote, or committed but not revealed) become non-voters (step clauses).",
         "Stake of a voter comes from GetStakeEntry (assumed non-negative); reward/slash amounts after the outcome are not under contract."),
-"C21": ("isEndOfMonth is true exactly when the next refill is less than a day away (or, with no timer, never); a refill burns floor(rate * balance) of the distribution pool (the configured LeftoverBurnRate for the validators' pool, everything for the providers' pool) and then moves allocation / months-left from the allocation pool into it, both pools with the same months-left; the validators' block reward is pool * factor / blocks truncated with factor <= 1 (BondedTargetFactor proved in [0, 1 + 1e-18]) and at least two blocks to go, so it never exceeds the pool; provider bonus rewards are paid from the providers' distribution pool and their running total - the exact sum of the rewards paid - never exceeds the balance read at the start.",
+"C21": ("isEndOfMonth is true exactly when the next refill is less than a day away (or, with no timer, never); a refill burns floor(rate * balance) of the distribution pool (the configured LeftoverBurnRate for the validators' pool, everything for the providers' pool) and then moves allocation / months-left from the allocation pool into it, both pools with the same months-left, and the leftover pool joins the validators' distribution pool only after both burn steps (ghost counter of burns); the validators' block reward is pool * factor / blocks truncated with factor <= 1 (BondedTargetFactor proved in [0, 1 + 1e-18]) and at least two blocks to go, so it never exceeds the pool; provider bonus rewards are paid from the providers' distribution pool and their running total - the exact sum of the rewards paid - never exceeds the balance read at the start.",
         "Pool balances come from the bank through TotalPoolTokens (a trusted function of the store); parameter ranges (LowFactor, bonded targets in [0,1], min < max) are stated domain assumptions; SpecEmissionParts and the base pay records are trusted to be non-negative."),
 "C23": ("CalculateCredit/CalculateMonthlyCredit return a credit in [0, max(amount, stored credit)], equal to the amount after 30 unchanged days; SetDelegation keeps CreditTimestamp <= Timestamp and the stored credit within the previous amounts; lemma: for a delegation without credit history, a later evaluation time never lowers the monthly credit.",
         "'Largest amount held during the last 30 days' is encoded as max(current amount, stored credit), the two quantities the code keeps; time arithmetic over a stated timestamp range."),
-"C24": ("setReputationPairingScoreByBenchmark stores a score in [min, max] equal to the scaled benchmark ratio; lemma: the scaling is order preserving in the QoS score; calcDecayFactor is in [0,1]; ApplyTimeDecayAndUpdateScore returns a valid reputation or an error and never fails on valid input.",
-        "LegacyDec is modelled as integers scaled by 10^18 with the library's rounding; the benchmark selection loop is not under contract."),
-"C25": ("RelaySession.DataToSign signs the text form of every field except Sig and Badge and leaves the session unchanged; RelayExchange.DataToSign joins exactly reply data, request data with the salt cleared, and the wire form of every reply metadata entry in order, and modifies neither request nor reply.",
+"C24": ("setReputationPairingScoreByBenchmark stores a score in [min, max] equal to the scaled benchmark ratio; lemma: the scaling is order preserving in the QoS score; calcDecayFactor is in [0,1]; ApplyTimeDecayAndUpdateScore returns a valid reputation or an error and never fails on valid input. A QoS report that passes Validate has latency, sync >= 0 and availability in (0,1] (fixed: above one was accepted), so ComputeReputation's score is not negative; QosScore.truncate returns a value between the report and the current score; QosScore.Update with a non-negative score and weight keeps the score valid; the relay-payment path hands UpdateReputationEpochQosScore only such scores and weights, and what it stores is valid.",
+        "LegacyDec is modelled as integers scaled by 10^18 with the library's rounding; ApproxSqrt/ApproxRoot are trusted sign/range specifications; stored reputations are assumed valid when read (every SetReputation under contract stores a valid one); the benchmark selection loop is not under contract."),
+"C25": ("RelaySession.DataToSign signs the text form of every field except Sig and Badge and leaves the session unchanged; RelayExchange.DataToSign joins exactly reply data, request data with the salt cleared, and the wire form of every reply metadata entry in order, and modifies neither request nor reply; VerifyRelayReply writes nothing and hands RecoverPubKey the exchange made of exactly the request and reply it was given.",
         "Protobuf String()/Marshal() are trusted to be functions of the message value (shallow); secp256k1 recovery and hash collision resistance are cryptographic assumptions."),
-"C26": ("GetContentHashData joins exactly the ten parts (metadata, extensions, addon, api interface, connection type, url, data, request block, seen block as 8-byte encodings, salt last) and leaves the request unchanged.",
+"C26": ("GetContentHashData joins exactly the ten parts (every metadata entry as name then value in order, extensions, addon, api interface, connection type, url, data, request block, seen block as 8-byte encodings, salt last) and leaves the request unchanged.",
         "Unambiguity of the concatenation (no separators between variable-length parts) is NOT proved - see 'Not reached'; sha256 collision resistance assumed."),
-"C27": ("Every successful compare-and-swap on the shared used-CU counter adds exactly this relay's CU and stays within maxCu * (virtualEpoch + 1) (overflow-safe, fixed); failure rolls the session back in full; PrepareSessionForUsage sets the cumulative CU to what the consumer signed or keeps it, and changes nothing on error.",
+"C27": ("Every successful compare-and-swap on the shared used-CU counter adds exactly this relay's CU and stays within maxCu * (virtualEpoch + 1) (overflow-safe, fixed); failure rolls the session back in full (and gives back exactly the failed relay's CU on the project counter); a reward-server update raises the session's CU sum to the reported value and moves the project's used CU by exactly that raise; PrepareSessionForUsage sets the cumulative CU to what the consumer signed or keeps it, and changes nothing on error.",
         "Thread-modular: the shared counter may change between atomic operations ('shared' component); lock discipline and relay-number replay protection across goroutines are not under contract."),
-"C28": ("addUsedComputeUnits reserves exactly the CU asked or rejects without change, never above maxCu * (virtualEpoch + 1); decrease releases exactly and never goes below zero; getValidProviderAddresses reports 'no provider left' before asking the optimizer only when every valid (unblocked) provider is in the relay's ignored set.",
+"C28": ("addUsedComputeUnits reserves exactly the CU asked or rejects without change, never above maxCu * (virtualEpoch + 1); decrease releases exactly and never goes below zero; a failed relay gives back exactly its reservation (OnSessionFailure); getValidProviderAddresses reports 'no provider left' before asking the optimizer only when every valid (unblocked) provider is in the relay's ignored set.",
         "Under the session lock (sequential kernel); 'a session is held by one relay at a time' and relay-number monotonicity under concurrency are not under contract."),
-"C29": ("saveProofInMemory keeps, per (epoch, consumer key, session), the proof with the highest CU among the stored one and the new one, stores the first proof as is, and leaves other sessions alone; proofs are claimed only for epochs no longer active and still in chain memory; on restart every snapshotted epoch still in memory is restored and only older ones are dropped; dropping an epoch drops exactly its key space (fixed).",
+"C29": ("saveProofInMemory keeps, per (epoch, consumer key, session), the proof with the highest CU among the stored one and the new one, stores the first proof as is, and leaves other sessions alone; proofs are claimed only for epochs no longer active and still in chain memory; on restart every snapshotted epoch still in memory is restored and only older ones are dropped; dropping an epoch, and dropping a claimed session, drop exactly their key space (both fixed); failed claims are retried only while their epoch is in chain memory.",
         "Under the server lock; retry counting, snapshot timing and badger persistence are not under contract."),
-"C31": ("Lemmas over the real CompareRequestedBlockInBatch for all block values >= 0 or tags -1..-6: the two summaries are combined independently, each combiner is commutative, associative and closed, numeric members are covered, and a member that needs archive on its own makes the batch need it (outside the recorded class). ParseMsg seeds both summaries with the first member, folds the others with the combiner, sums compute units, and never hands the container an earliest summary that would be read as 'unset'.",
+"C31": ("Lemmas over the real CompareRequestedBlockInBatch for all block values >= 0 or tags -1..-6: the two summaries are combined independently, each combiner is commutative, associative and closed, numeric members are covered, and a member that needs archive on its own makes the batch need it (outside the recorded class). ParseMsg seeds both summaries with the first member, folds the others with the combiner, sums compute units, and never hands the container an earliest summary that would be read as 'unset'; the archive rule those lemmas speak about is the contract of the real isPassingRule (verified, see C32).",
         "Known finding (open): a member without a block (NOT_APPLICABLE) overrides a numeric earliest block. Only the JSON-RPC parser's batch loop is under contract (not tendermintRPC's)."),
-"C32": ("isPassingRule marks a request iff it asks for the earliest block, or a numeric block with the latest block unknown or more than the rule distance behind it (mathematical integers: no wrap for young chains), never for latest / no block; ParseMsg adds the archive extension for an eth_call exactly when its numeric block is more than 126 behind (or the latest block is unknown).",
-        "The extension bookkeeping around the rule (explicit extension override, spec configuration) is not under contract."),
+"C32": ("isPassingRule marks a request iff it asks for the earliest block, or a numeric block with the latest block unknown or more than the rule distance behind it (mathematical integers: no wrap for young chains), never for latest / no block, and writes nothing; ExtensionParser.ExtensionParsing calls SetExtension only with a configured archive extension and only when the rule passes, and every configured archive extension of the add-on whose rule passes ends up marked (ghost set of marked extensions, invariant over the visited keys of the map iteration); ParseMsg adds the archive extension for an eth_call exactly when its numeric block is more than 126 behind (or the latest block is unknown).",
+        "SetExtension itself (de-duplication by name, CU multiplier), the explicit extension override and the spec configuration are not under contract; only the JSON-RPC parser's eth_call rule is."),
 "C34": ("Policy.Decide returns Stop or Retry; Stop at the attempt maximum, for batches with retry disabled, for cross-validation and stateful requests, on non-retryable errors; Retry only when allowed; OnSendRelayResult never reports success on error, counts failures, stops after the allowed send failures, resets on success.",
         "The pure decision kernel only; the state machine's goroutines, ticker and channels (termination, 'exactly one final instruction') are outside the subset."),
-"C36": ("getRelayInner returns a value only without error, and serves a stored non-finalized entry only when its stored block hash is empty or byte-equal to the requested one; HashCacheRequest hashes the request with exactly the volatile fields cleared plus the chain id and leaves the request unchanged.",
+"C36": ("getRelayInner returns a value only without error, and serves a stored non-finalized entry only when its stored block hash is empty or byte-equal to the requested one; HashCacheRequest hashes the request with exactly the volatile fields cleared plus the chain id and leaves the request unchanged (including the elements of its slices); ToCacheReply returns the stored bytes and seen block, decompressing only entries flagged compressed.",
         "The ristretto cache and protobuf Marshal are trusted library specifications; expiry and finalization promotion are not under contract."),
-"C39": ("verifyRelayRequestMetaData accepts only a request naming this provider, spec and lava chain id with a content hash equal to the hash of its data; verifyRelaySession reaches the session lookup only with a valid epoch, a passed metadata check and the address recovered from the request's own signature; a new consumer is registered only after the chain confirmed pairing for this consumer, provider, epoch and spec; a request rejected after its session was obtained gives the session back.",
+"C39": ("verifyRelayRequestMetaData accepts only a request naming this provider, spec and lava chain id with a content hash equal to the hash of its data; verifyRelaySession reaches the session lookup only with a valid epoch, a passed metadata check and the address recovered from the request's own signature; a new consumer is registered only after the chain confirmed pairing for this consumer, provider, epoch and spec; a request rejected after its session was obtained gives the session back, and the session's failure path returns exactly the failed relay's CU.",
         "The provider session manager, state tracker and hashing are trusted callee contracts; serving (TryRelayWithWrapper), proof sending and CU rollback on later failures are C27 / not under contract."),
-"C42": ("Each provider's IPRPC share is fund * CU / totalCU rounded down (fund after participation), the amount used never exceeds the fund, a spec nobody served rolls over untaxed, and the remainder of every served spec is added to the leftovers that go to the community pool.",
+"C42": ("Each provider's IPRPC share is fund * CU / totalCU rounded down (fund after participation), the amount used never exceeds the fund, a spec nobody served rolls over untaxed, and the remainder of every served spec is added to the leftovers that go to the community pool; countIprpcCu adds a provider's served CU to its spec's total and leaves no record for zero CU.",
         "The CU record's total is a ghost prefix sum assumed consistent with its entries; ContributeToValidatorsAndCommunityPool and the bank keeper are trusted frames."),
 }
 
